@@ -20,19 +20,70 @@ def positional (radix : Nat) : List Nat → Nat
   | [] => 0
   | d :: ds => d * radix ^ ds.length + positional radix ds
 
+theorem foldl_eq_positional (radix : Nat) (ds : List Nat) (acc : Nat) :
+    ds.foldl (fun acc d => acc * radix + d) acc = acc * radix ^ ds.length + positional radix ds := by
+  induction ds generalizing acc with
+  | nil => simp [positional]
+  | cons d ds ih =>
+    simp only [List.foldl_cons, ih, positional, List.length_cons, Nat.pow_succ, Nat.add_mul]
+    rw [Nat.mul_assoc, Nat.mul_comm (radix ^ ds.length) radix, Nat.add_assoc]
+
 theorem digitsValue_eq_positional (radix : Nat) (ds : List Nat) : digitsValue radix ds = positional radix ds := by
-  sorry
+  cases ds with
+  | nil => rfl
+  | cons d ds =>
+    show (d :: ds).foldl (fun acc d => acc * radix + d) 0 = _
+    rw [foldl_eq_positional]; simp
+
+theorem parseRadix_go_value (radix : Nat) (s ds : List Nat) (acc : Nat)
+    (hd : s.map (toDigit radix) = ds.map some) :
+    parseRadix.go radix s acc = .ok (acc * radix ^ ds.length + positional radix ds) := by
+  induction s generalizing ds acc with
+  | nil =>
+    cases ds with
+    | nil => simp [parseRadix.go, positional]
+    | cons d ds => simp at hd
+  | cons c cs ih =>
+    cases ds with
+    | nil => simp at hd
+    | cons d ds =>
+      simp only [List.map_cons, List.cons.injEq] at hd
+      simp only [parseRadix.go, hd.1]
+      rw [ih ds _ hd.2]
+      simp only [positional, List.length_cons, Nat.pow_succ, Nat.add_mul]
+      rw [Nat.mul_assoc, Nat.mul_comm (radix ^ ds.length) radix, Nat.add_assoc]
 
 /-- `parse_radix_str` on a non-empty string of valid digits yields its positional value. -/
 theorem parseRadix_value (radix : Nat) (s ds : List Nat) (hne : s ≠ [])
     (hd : s.map (toDigit radix) = ds.map some) :
     parseRadix s radix = .ok (Int.ofNat (positional radix ds)) := by
-  sorry
+  unfold parseRadix
+  have : s.isEmpty = false := by cases s <;> simp_all
+  simp only [this, parseRadix_go_value radix s ds 0 hd]
+  simp [Except.map]
+
+theorem parseRadix_go_ok_iff (radix : Nat) (s : List Nat) (acc : Nat) :
+    (∃ v, parseRadix.go radix s acc = .ok v) ↔ ∀ c ∈ s, (toDigit radix c).isSome := by
+  induction s generalizing acc with
+  | nil => simp [parseRadix.go]
+  | cons c cs ih =>
+    simp only [parseRadix.go, List.mem_cons, forall_eq_or_imp]
+    cases h : toDigit radix c with
+    | none => simp
+    | some d => simp [ih]
 
 /-- … and never panics exactly on such strings. -/
 theorem parseRadix_ok_iff (radix : Nat) (s : List Nat) :
     (∃ v, parseRadix s radix = .ok v) ↔ (s ≠ [] ∧ ∀ c ∈ s, (toDigit radix c).isSome) := by
-  sorry
+  unfold parseRadix
+  cases s with
+  | nil => simp
+  | cons c cs =>
+    rw [← parseRadix_go_ok_iff radix (c :: cs) 0]
+    simp only [List.isEmpty_cons, Bool.false_eq_true, ↓reduceIte, ne_eq, reduceCtorEq, not_false_eq_true, true_and]
+    cases h : parseRadix.go radix (c :: cs) 0 with
+    | error e => simp [Except.map]
+    | ok v => simp [Except.map]
 
 /-! ### precedence climbing (T-climb) -/
 
@@ -55,9 +106,132 @@ def stratified (first : Expr) (rest : List (BinOp × Expr)) : Expr :=
   let r := mulChain first rest
   addChain (rest.length + 1) r.1 r.2
 
+theorem BinOp.prec_cases (o : BinOp) : o.prec = 1 ∨ o.prec = 2 := by cases o <;> simp [BinOp.prec]
+
+theorem mulChain_len (lhs : Expr) (ps) : (mulChain lhs ps).2.length ≤ ps.length := by
+  induction ps generalizing lhs with
+  | nil => simp [mulChain]
+  | cons p ps ih =>
+    obtain ⟨op, t⟩ := p
+    simp only [mulChain]; split
+    · exact Nat.le_trans (ih _) (by simp)
+    · simp
+
+theorem mulChain_head (lhs : Expr) (ps) :
+    ∀ op t r, (mulChain lhs ps).2 = (op, t) :: r → op.prec ≠ 2 := by
+  induction ps generalizing lhs with
+  | nil => simp [mulChain]
+  | cons p ps ih =>
+    obtain ⟨o, u⟩ := p
+    intro op t r
+    simp only [mulChain]; split
+    · exact ih _ op t r
+    · intro h; simp only [List.cons.injEq, Prod.mk.injEq] at h; obtain ⟨⟨rfl, _⟩, _⟩ := h; assumption
+
+theorem mulChain_stop (x : Expr) (qs) (h : ∀ op t r, qs = (op, t) :: r → op.prec ≠ 2) :
+    mulChain x qs = (x, qs) := by
+  cases qs with
+  | nil => simp [mulChain]
+  | cons p r =>
+    obtain ⟨op, t⟩ := p
+    have := h op t r rfl
+    simp [mulChain, this]
+
+/-- the inner loop stops at once when no operator binds tighter than `prec` -/
+theorem climbInner_stop (fuel : Nat) (t : Expr) (prec : Nat) (ps : List (BinOp × Expr))
+    (h : ∀ op u r, ps = (op, u) :: r → ¬ op.prec > prec) :
+    climbInner fuel t prec ps = (t, ps) := by
+  match fuel, ps, h with
+  | 0, _, _ => simp [climbInner]
+  | _+1, [], _ => simp [climbInner]
+  | f+1, (o', t') :: qs, h =>
+    have := h o' t' qs rfl
+    simp [climbInner, this]
+
+theorem climbRec_two (fuel : Nat) (lhs : Expr) (ps) (h : 2 * ps.length + 1 ≤ fuel) :
+    climbRec fuel lhs 2 ps = mulChain lhs ps := by
+  induction ps generalizing lhs fuel with
+  | nil => cases fuel <;> simp [climbRec, mulChain]
+  | cons p ps ih =>
+    obtain ⟨op, t⟩ := p
+    match fuel, h with
+    | fuel+1, h =>
+      simp only [climbRec, mulChain]
+      rcases BinOp.prec_cases op with h1 | h2
+      · simp [h1]
+      · simp only [h2, ge_iff_le, Nat.le_refl, ↓reduceIte]
+        rw [climbInner_stop fuel t 2 ps (by
+          intro o u r _; rcases BinOp.prec_cases o with h | h <;> omega)]
+        exact ih fuel _ (by simp at h; omega)
+
+theorem climbInner_one (fuel : Nat) (t : Expr) (rest)
+    (h : 2 * rest.length + 2 ≤ fuel) :
+    climbInner fuel t 1 rest = mulChain t rest := by
+  match fuel, rest, h with
+  | _+1, [], _ => simp [climbInner, mulChain]
+  | f+1, (o', t') :: qs, h =>
+    simp only [climbInner]
+    rcases BinOp.prec_cases o' with h1 | h2
+    · simp [h1, mulChain]
+    · simp only [h2, gt_iff_lt, Nat.lt_add_one, ↓reduceIte]
+      rw [climbRec_two f t ((o', t') :: qs) (by simp at h ⊢; omega)]
+      have hh := mulChain_head t ((o', t') :: qs)
+      generalize hr : mulChain t ((o', t') :: qs) = r at hh
+      obtain ⟨v, rs⟩ := r
+      simp only
+      exact climbInner_stop f v 1 rs (by
+        intro o u r' he
+        have := hh o u r' he
+        rcases BinOp.prec_cases o with h | h <;> omega)
+
+theorem climbRec_low : ∀ (k : Nat) (ps : List (BinOp × Expr)) (lhs : Expr) (fuel n m : Nat),
+    ps.length ≤ k → m ≤ 1 → 2 * ps.length + 2 ≤ fuel → ps.length ≤ n →
+    climbRec fuel lhs m ps =
+      (addChain n (mulChain lhs ps).1 (mulChain lhs ps).2, []) := by
+  intro k
+  induction k with
+  | zero =>
+    intro ps lhs fuel n m hk _ _ _
+    have : ps = [] := by cases ps <;> simp_all
+    subst this
+    cases fuel <;> cases n <;> simp [climbRec, mulChain, addChain]
+  | succ k ih =>
+    intro ps lhs fuel n m hk hm hf hn
+    match ps, fuel, hf with
+    | [], fuel, _ => cases fuel <;> cases n <;> simp [climbRec, mulChain, addChain]
+    | (op, t) :: rest, fuel+1, hf =>
+      have hpm : op.prec ≥ m := by rcases BinOp.prec_cases op with h | h <;> omega
+      simp only [climbRec, hpm, ↓reduceIte]
+      rcases BinOp.prec_cases op with h1 | h2
+      · -- additive operator
+        rw [h1, climbInner_one fuel t rest (by simp at hf ⊢; omega)]
+        have hl := mulChain_len t rest
+        have hh := mulChain_head t rest
+        have hstop : mulChain lhs ((op, t) :: rest) = (lhs, (op, t) :: rest) := by
+          simp [mulChain, h1]
+        rw [hstop]
+        match n, hn with
+        | n+1, hn =>
+          simp only [addChain]
+          generalize hr : mulChain t rest = r at hl hh
+          obtain ⟨v, rs⟩ := r
+          simp only at hl hh ⊢
+          rw [ih rs (op.mk lhs v) fuel n m (by simp at hk; omega) hm (by simp at hf; omega)
+            (by simp at hn; omega)]
+          rw [mulChain_stop _ rs hh]
+      · -- multiplicative operator in the leading run
+        rw [climbInner_stop fuel t op.prec rest (by
+          intro o u r _; rcases BinOp.prec_cases o with h | h <;> omega)]
+        simp only
+        rw [ih rest (op.mk lhs t) fuel n m (by simp at hk; omega) hm (by simp at hf; omega)
+          (by simp at hn; omega)]
+        simp [mulChain, h2]
+
 theorem climb_eq_stratified (first : Expr) (rest : List (BinOp × Expr)) :
     climb first rest = stratified first rest := by
-  sorry
+  unfold climb stratified
+  rw [climbRec_low rest.length rest first _ (rest.length + 1) 0 (Nat.le_refl _) (by omega)
+    (Nat.le_refl _) (by omega)]
 
 /-! ### evaluation is exact integer arithmetic -/
 
@@ -67,12 +241,107 @@ theorem eval_arith (fuel : Nat) (ctx : Ctx) (a b : Expr) (x y : Int)
     eval (fuel + 1) ctx (.minus a b) = .ok (x - y) ∧
     eval (fuel + 1) ctx (.times a b) = .ok (x * y) ∧
     eval (fuel + 1) ctx (.divide a b) = (if y = 0 then .error .divisionByZero else .ok (Int.tdiv x y)) := by
-  sorry
+  simp [eval, ha, hb]
+
+theorem eval_evalArgs_fuel_mono (f : Nat) :
+    (∀ (ctx : Ctx) (e : Expr) (r : Except EvErr Int),
+      eval f ctx e = r → r ≠ .error (.recursionLimit "fuel") → eval (f + 1) ctx e = r) ∧
+    (∀ (ctx : Ctx) (ps : List String) (as : Exprs) (r : Except EvErr (List (String × Int))),
+      evalArgs f ctx ps as = r → r ≠ .error (.recursionLimit "fuel") → evalArgs (f + 1) ctx ps as = r) := by
+  induction f with
+  | zero =>
+    constructor
+    · intro ctx e r h hr; simp [eval] at h; exact absurd h.symm hr
+    · intro ctx ps as r h hr; simp [evalArgs] at h; exact absurd h.symm hr
+  | succ f ih =>
+    obtain ⟨ihe, iha⟩ := ih
+    -- binary operators share one argument
+    have bin : ∀ (ctx : Ctx) (a b : Expr) (g : Int → Int → Except EvErr Int) (r : Except EvErr Int),
+        (match eval f ctx a with
+          | .error e => .error e
+          | .ok x => match eval f ctx b with
+            | .error e => .error e
+            | .ok y => g x y) = r → r ≠ .error (.recursionLimit "fuel") →
+        (match eval (f + 1) ctx a with
+          | .error e => .error e
+          | .ok x => match eval (f + 1) ctx b with
+            | .error e => .error e
+            | .ok y => g x y) = r := by
+      intro ctx a b g r h hr
+      cases ha : eval f ctx a with
+      | error e =>
+        rw [ha] at h; simp only at h
+        rw [ihe ctx a _ ha (by rw [h]; exact hr)]; exact h
+      | ok x =>
+        rw [ha] at h; simp only at h
+        rw [ihe ctx a _ ha (by simp)]; simp only
+        cases hb : eval f ctx b with
+        | error e =>
+          rw [hb] at h; simp only at h
+          rw [ihe ctx b _ hb (by rw [h]; exact hr)]; exact h
+        | ok y =>
+          rw [hb] at h; simp only at h
+          rw [ihe ctx b _ hb (by simp)]; exact h
+    constructor
+    · intro ctx e r h hr
+      cases e with
+      | paren e => simp only [eval] at h ⊢; exact ihe ctx e r h hr
+      | num n => simp only [eval] at h ⊢; exact h
+      | label l => simp only [eval] at h ⊢; exact h
+      | var v => simp only [eval] at h ⊢; exact h
+      | plus a b => rw [eval] at h ⊢; exact bin ctx a b (fun x y => .ok (x + y)) r h hr
+      | minus a b => rw [eval] at h ⊢; exact bin ctx a b (fun x y => .ok (x - y)) r h hr
+      | times a b => rw [eval] at h ⊢; exact bin ctx a b (fun x y => .ok (x * y)) r h hr
+      | divide a b =>
+        rw [eval] at h ⊢
+        exact bin ctx a b (fun x y => if y = 0 then .error .divisionByZero else .ok (Int.tdiv x y)) r h hr
+      | «macro» name args =>
+        rw [eval] at h ⊢
+        cases hm : lookupMacro ctx.macros name with
+        | none => rw [hm] at h; simpa using h
+        | some d =>
+          cases d with
+          | instr ps body => rw [hm] at h; simpa using h
+          | expr params body =>
+            rw [hm] at h; simp only at h ⊢
+            cases hargs : evalArgs f ctx params args with
+            | error e =>
+              rw [hargs] at h; simp only at h
+              rw [iha ctx params args _ hargs (by intro he; injection he with he; exact hr (by rw [← h, he]))]; exact h
+            | ok vars =>
+              rw [hargs] at h; simp only at h
+              rw [iha ctx params args _ hargs (by simp)]; simp only
+              split
+              · rename_i hd; simp only [hd, ↓reduceIte] at h; exact h
+              · rename_i hd; simp only [hd, ↓reduceIte] at h
+                exact ihe _ body r h hr
+    · intro ctx ps as r h hr
+      cases ps with
+      | nil => simp only [evalArgs] at h ⊢; exact h
+      | cons p ps =>
+        cases as with
+        | nil => simp only [evalArgs] at h ⊢; exact h
+        | cons a as =>
+          rw [evalArgs] at h ⊢
+          cases ha : eval f ctx a with
+          | error e =>
+            rw [ha] at h; simp only at h
+            rw [ihe ctx a _ ha (by intro he; injection he with he; exact hr (by rw [← h, he]))]; exact h
+          | ok x =>
+            rw [ha] at h; simp only at h
+            rw [ihe ctx a _ ha (by simp)]; simp only
+            cases hb : evalArgs f ctx ps as with
+            | error e =>
+              rw [hb] at h; simp only at h
+              rw [iha ctx ps as _ hb (by rw [h]; exact hr)]; exact h
+            | ok y =>
+              rw [hb] at h; simp only at h
+              rw [iha ctx ps as _ hb (by simp)]; exact h
 
 /-- more fuel never changes a result that was not a fuel exhaustion -/
 theorem eval_fuel_mono (f : Nat) (ctx : Ctx) (e : Expr) (r : Except EvErr Int)
-    (h : eval f ctx e = r) (hr : r ≠ .error (.recursionLimit "fuel")) : eval (f + 1) ctx e = r := by
-  sorry
+    (h : eval f ctx e = r) (hr : r ≠ .error (.recursionLimit "fuel")) : eval (f + 1) ctx e = r :=
+  (eval_evalArgs_fuel_mono f).1 ctx e r h hr
 
 /-! ### expression macros (T-subst, C11) -/
 
@@ -105,7 +374,9 @@ theorem eval_macro_call (fuel : Nat) (ctx : Ctx) (name : String) (params : List 
     (hdepth : ctx.depth < maxMacroDepth) :
     eval (fuel + 1) ctx (.macro name args) =
       eval fuel { ctx with vars := some vals, depth := ctx.depth + 1 } body := by
-  sorry
+  rw [eval]
+  simp only [hm, hargs]
+  rw [if_neg (by omega)]
 
 /-- … and the bindings are exactly parameter ↦ call-site value, for as many
 parameters as there are arguments. -/
@@ -113,14 +384,83 @@ theorem evalArgs_spec (fuel : Nat) (ctx : Ctx) (params : List String) (args : Ex
     (h : evalArgs fuel ctx params args = .ok vals) :
     vals.map (·.1) = params.take (min params.length args.toList.length) ∧
     ∀ i (hi : i < vals.length), ∃ a, args.toList[i]? = some a ∧ eval (fuel - 1) ctx a = .ok (vals[i]).2 := by
-  sorry
+  induction fuel generalizing params args vals with
+  | zero => simp [evalArgs] at h
+  | succ f ih =>
+    cases params with
+    | nil => simp only [evalArgs, Except.ok.injEq] at h; subst h; simp
+    | cons p ps =>
+      cases args with
+      | nil => simp only [evalArgs, Except.ok.injEq] at h; subst h; simp [Exprs.toList]
+      | cons a as =>
+        rw [evalArgs] at h
+        cases ha : eval f ctx a with
+        | error e => rw [ha] at h; simp at h
+        | ok x =>
+          rw [ha] at h; simp only at h
+          cases hb : evalArgs f ctx ps as with
+          | error e => rw [hb] at h; simp at h
+          | ok rest =>
+            rw [hb] at h; simp only [Except.ok.injEq] at h; subst h
+            obtain ⟨ih1, ih2⟩ := ih ps as rest hb
+            constructor
+            · simp only [List.map_cons, Exprs.toList, List.length_cons, ih1]
+              rw [Nat.add_min_add_right, List.take_succ_cons]
+            · intro i hi
+              cases i with
+              | zero => exact ⟨a, by simp [Exprs.toList], by simpa using ha⟩
+              | succ i =>
+                obtain ⟨a', h1, h2⟩ := ih2 i (by simpa using hi)
+                refine ⟨a', by simpa [Exprs.toList] using h1, ?_⟩
+                cases f with
+                | zero => simp [evalArgs] at hb
+                | succ f' =>
+                  simp only [Nat.add_sub_cancel, List.getElem_cons_succ] at h2 ⊢
+                  exact eval_fuel_mono f' ctx a' _ h2 (by simp)
+
+theorem lookupVar_nil (v : String) : lookupVar [] v = none := rfl
+
+theorem eval_evalArgs_subst_vals (fuel : Nat) :
+    (∀ (ctx : Ctx) (vs : List (String × Int)) (e : Expr),
+      eval fuel { ctx with vars := some vs } e = eval fuel { ctx with vars := some [] } (substVals vs e)) ∧
+    (∀ (ctx : Ctx) (vs : List (String × Int)) (ps : List String) (as : Exprs),
+      evalArgs fuel { ctx with vars := some vs } ps as
+        = evalArgs fuel { ctx with vars := some [] } ps (substValsArgs vs as)) := by
+  induction fuel with
+  | zero => constructor <;> intros <;> simp [eval, evalArgs]
+  | succ f ih =>
+    obtain ⟨ihe, iha⟩ := ih
+    constructor
+    · intro ctx vs e
+      cases e with
+      | paren e => simp only [substVals, eval]; exact ihe ctx vs e
+      | num n => simp only [substVals, eval]
+      | label l => simp only [substVals, eval]
+      | var v =>
+        simp only [substVals, eval]
+        cases hv : lookupVar vs v with
+        | none => simp [lookupVar_nil]
+        | some x => simp
+      | plus a b => simp only [substVals, eval, ihe ctx vs a, ihe ctx vs b]
+      | minus a b => simp only [substVals, eval, ihe ctx vs a, ihe ctx vs b]
+      | times a b => simp only [substVals, eval, ihe ctx vs a, ihe ctx vs b]
+      | divide a b => simp only [substVals, eval, ihe ctx vs a, ihe ctx vs b]
+      | «macro» name args =>
+        simp only [substVals, eval, iha ctx vs _ args]
+    · intro ctx vs ps as
+      cases ps with
+      | nil => simp only [evalArgs]
+      | cons p ps =>
+        cases as with
+        | nil => simp only [substValsArgs, evalArgs]
+        | cons a as => simp only [substValsArgs, evalArgs, ihe ctx vs a, iha ctx vs ps as]
 
 /-- Evaluating a macro body under bindings `vs` is evaluating the body with every
 bound `$p` replaced by the value bound to it, in an empty frame: parameters of
 other macros with the same names cannot interfere, at any nesting depth. -/
 theorem eval_subst_vals (fuel : Nat) (ctx : Ctx) (vs : List (String × Int)) (e : Expr) :
-    eval fuel { ctx with vars := some vs } e = eval fuel { ctx with vars := some [] } (substVals vs e) := by
-  sorry
+    eval fuel { ctx with vars := some vs } e = eval fuel { ctx with vars := some [] } (substVals vs e) :=
+  (eval_evalArgs_subst_vals fuel).1 ctx vs e
 
 end Asm
 end EtkVerif
